@@ -18,7 +18,8 @@ Parameters (not modelled, supplied by the harness or quantified over in the theo
   spendable confirmed output or an unspent output created by an earlier pooled transaction *of the
   same version* (`checkTxnSet` validates a v1 set / a v2 set against the tip only).
 * time is the explicit `now`; `types.Currency` is `Nat` (overflow is not modelled).
-* the wallet is synced: the store's tip height equals the manager's (`height`).
+* the store's tip height (`height`) may lag behind the manager's (`cmHeight`); a block that
+  confirms pooled transactions (`mine`) is processed by the wallet at once.
 -/
 namespace Verif.Funding
 
@@ -79,8 +80,10 @@ structure State where
   cfg : Cfg
   /-- `store.UnspentSiacoinElements()` (includes immature outputs) -/
   utxos : List Utxo
-  /-- tip height of store and manager -/
+  /-- tip height of the wallet's store (what `UnspentSiacoinElements` returns as tip) -/
   height : Nat
+  /-- tip height of the manager; the store may lag behind it -/
+  cmHeight : Nat := height
   /-- `sw.locked` : output id ↦ expiry (`0` = no entry) -/
   locked : Nat → Nat
   now : Nat
@@ -95,7 +98,7 @@ structure State where
   nextId : Nat
 
 def State.init (cfg : Cfg) : State :=
-  { cfg, utxos := [], height := 0, locked := fun _ => 0, now := 0, poolV1 := [], poolV2 := [], bsets := [],
+  { cfg, utxos := [], height := 0, cmHeight := 0, locked := fun _ => 0, now := 0, poolV1 := [], poolV2 := [], bsets := [],
     reg := [], out := [], nextId := 0 }
 
 def sumV (l : List Utxo) : Nat := (l.map (·.value)).sum
@@ -369,7 +372,7 @@ def State.accepts (s : State) (v2 : Bool) (ids : List Nat) : Bool :=
   let sameVer := s.scanSelect v2
   ids.all fun id =>
     !sc.spent.contains id &&
-      (s.utxos.any (fun u => u.id == id && u.maturity ≤ s.height + 1) || sameVer.created.any (fun o => o.id == id))
+      (s.utxos.any (fun u => u.id == id && u.maturity ≤ s.cmHeight + 1) || sameVer.created.any (fun o => o.id == id))
 
 /-- number the outputs of a transaction with fresh ids -/
 def numberOuts : Nat → List (Nat × Bool) → List POut
@@ -433,10 +436,17 @@ def State.mine (s : State) (toWallet : Bool) (reward : Nat) : State :=
   { s with
     utxos := (created.map POut.toUtxo ++ payout).foldl (fun l u => insById u l) kept
     height := s.height + 1
+    cmHeight := s.cmHeight + 1
     poolV1 := [], poolV2 := []
     nextId := s.nextId + 1 }
 
 def State.tick (s : State) (d : Nat) : State := { s with now := s.now + d }
+
+/-- `k` empty blocks are added to the manager's chain while the wallet is not told yet -/
+def State.lag (s : State) (k : Nat) : State := { s with cmHeight := s.cmHeight + k, nextId := s.nextId + k }
+
+/-- the wallet processes the (empty) blocks it is behind -/
+def State.sync (s : State) : State := { s with height := s.cmHeight }
 
 /-- `checkTxnSet` (manager.go:1225-1253) for a v2 set: every transaction is valid on top of the tip
 plus the earlier transactions of the set (`s` has an empty pool when this is first called) -/
@@ -528,7 +538,9 @@ inductive Op
   | tick (d : Nat)
   | restart (freshPool : Bool)
   /-- any other change of the chain and the pool as the wallet sees them -/
-  | env (utxos : List Utxo) (height : Nat) (poolV1 poolV2 : List PTxn)
+  | env (utxos : List Utxo) (height cmHeight : Nat) (poolV1 poolV2 : List PTxn)
+  | lag (k : Nat)
+  | sync
 deriving Repr
 
 def State.step (S : Sorter) (s : State) : Op → State
@@ -541,7 +553,9 @@ def State.step (S : Sorter) (s : State) : Op → State
   | .mine w r => s.mine w r
   | .tick d => s.tick d
   | .restart f => s.restart f
-  | .env u h p1 p2 => { s with utxos := u, height := h, poolV1 := p1, poolV2 := p2 }
+  | .env u h ch p1 p2 => { s with utxos := u, height := h, cmHeight := ch, poolV1 := p1, poolV2 := p2 }
+  | .lag k => s.lag k
+  | .sync => s.sync
 
 def State.run (S : Sorter) (s : State) (ops : List Op) : State := ops.foldl (State.step S) s
 
